@@ -250,23 +250,32 @@ def int64Ok (a : Int) : Bool := decide (-9223372036854775808 ≤ a) && decide (a
 /-- at most `p` decimal digits -/
 def digitsOk (p : Nat) (a : Int) : Bool := decide (a.natAbs < 10 ^ p)
 
+/-- number of decimal digits (0 for 0) -/
+def decDigits (n : Nat) : Nat := if n = 0 then 0 else (Nat.toDigits 10 n).length
+
+/-- magnitude reduced modulo 2^128 and read as a signed 128-bit integer, sign applied afterwards (pyarrow's overflow) -/
+def wrap128 (a : Int) : Int :=
+  let m : Int := ((a.natAbs % 2 ^ 128 : Nat) : Int)
+  let m' := if m ≥ 2 ^ 127 then m - 2 ^ 128 else m
+  if a < 0 then -m' else m'
+
 def nativeConv (k p s : Nat) (a b : Int) : Option (Int × Int) :=
   match k with
   | 0 => if -2147483648 ≤ a ∧ a ≤ 2147483647 then some (a, 0) else Option.none
   | 5 =>
-    -- Decimal(coefficient a, exponent b) into decimal128(p, s): the coefficient itself must fit 128 bits, the rescale to
-    -- exponent -s must be exact, the result has at most p digits
-    let sc : Int := -(s : Int)
-    if a.natAbs ≥ 2 ^ 127 then Option.none
-    else if b ≥ sc then
-      let a' := a * (10 : Int) ^ (b - sc).toNat
-      if digitsOk p a' then some (a', sc) else Option.none
+    -- Decimal(coefficient a, exponent b) into decimal128(p, s), as pyarrow does it: the digit count of the coefficient plus
+    -- the scale change must not exceed p; the coefficient is then parsed into 128 bits *with silent wrap-around*; the
+    -- rescale to exponent -s must be exact
+    let k : Int := b + (s : Int)
+    if (decDigits a.natAbs : Int) + k > (p : Int) then Option.none
     else
-      let d := (10 : Int) ^ (sc - b).toNat
-      if a % d = 0 then
-        let a' := a / d
-        if digitsOk p a' then some (a', sc) else Option.none
-      else Option.none
+      let raw := wrap128 a
+      if k ≥ 0 then some (raw * (10 : Int) ^ k.toNat, -(s : Int))
+      else
+        let d : Nat := 10 ^ (-k).toNat
+        if raw.natAbs % d = 0 then
+          some ((if raw < 0 then -((raw.natAbs / d : Nat) : Int) else ((raw.natAbs / d : Nat) : Int)), -(s : Int))
+        else Option.none
   | _ =>
     -- microsecond count floored to the declared unit; the unit count must fit 64 bits
     let d := unitDiv p
